@@ -62,16 +62,16 @@ Round ==
    /\ Running
    /\ Tick([op |-> "Round"])
    /\ IF reg = {}
-      THEN out' = "nopeers" /\ UNCHANGED <<base, sess, head, acc, pool, queue, pend, done, slot, offset, lacks, faults, broken, delivered, old, reg, busy, fin>>
+      THEN out' = "nopeers" /\ UNCHANGED <<lastsz, base, sess, head, acc, pool, queue, pend, done, slot, offset, lacks, faults, broken, delivered, old, reg, busy, fin>>
       ELSE IF EmptyQ(queue)
       THEN /\ out' = IF ~InFlightNow /\ fin THEN "done" ELSE "run"
-           /\ UNCHANGED <<base, sess, head, acc, pool, queue, pend, done, slot, offset, lacks, faults, broken, delivered, old, reg, busy, fin>>
+           /\ UNCHANGED <<lastsz, base, sess, head, acc, pool, queue, pend, done, slot, offset, lacks, faults, broken, delivered, old, reg, busy, fin>>
       ELSE \E order \in Perms(reg \ busy) :
              LET st == RoundFold(order, 1, [q |-> queue, slot |-> slot, done |-> done, pool |-> pool, pend |-> pend, busy |-> busy,
                                             progressed |-> FALSE, throttled |-> FALSE, running |-> InFlightNow, stop |-> FALSE]) IN
              /\ queue' = st.q /\ slot' = st.slot /\ done' = st.done /\ pool' = st.pool /\ pend' = st.pend /\ busy' = st.busy
              /\ out' = IF ~st.progressed /\ ~st.throttled /\ ~st.running /\ busy = {} /\ ~EmptyQ(st.q) THEN "unavail" ELSE "run"
-             /\ UNCHANGED <<base, sess, head, acc, offset, lacks, faults, broken, delivered, old, reg, fin>>
+             /\ UNCHANGED <<lastsz, base, sess, head, acc, offset, lacks, faults, broken, delivered, old, reg, fin>>
 
 Answer(p, v) ==
    /\ Running /\ p \in busy /\ pend[p] # <<>>
@@ -80,7 +80,7 @@ Answer(p, v) ==
    /\ IF IsFault(p, v) THEN Charge ELSE faults' = faults
    /\ LET stale == Matched(pend[p], v[2], 1) = 0 /\ v[2] # <<>> IN busy' = IF stale THEN busy ELSE busy \ {p}
    /\ DeliverCore(p, v[2])
-   /\ UNCHANGED <<base, sess, head, acc, offset, broken, delivered, old, reg, fin, out>>
+   /\ UNCHANGED <<lastsz, base, sess, head, acc, offset, broken, delivered, old, reg, fin, out>>
 
 \* expire(): the request goes back to the queue.  A request of more than two items that times out does not get the peer
 \* dropped: it is marked idle again (setIdle(peer, 0)) -- also an honest peer may be slow like that; smaller requests
@@ -93,7 +93,7 @@ Timeout(p) ==
    /\ queue' = PushAll(queue, pend[p]) /\ pend' = [pend EXCEPT ![p] = <<>>]
    /\ reg' = IF Len(pend[p]) > 2 THEN reg ELSE reg \ {p}
    /\ busy' = busy \ {p}
-   /\ UNCHANGED <<base, sess, head, acc, pool, done, slot, offset, lacks, broken, delivered, old, fin, out>>
+   /\ UNCHANGED <<lastsz, base, sess, head, acc, pool, done, slot, offset, lacks, broken, delivered, old, fin, out>>
 
 Drain == /\ Processable(1) > 0 /\ Results /\ Frame        \* the consumer goes on after the loop returned
 
